@@ -13,6 +13,7 @@ import os
 import re
 import gffutils
 import argparse
+import stat
 import tempfile
 import uuid
 from traceback import print_exc
@@ -528,17 +529,29 @@ def load_config(config_path):
 def store_config(config_path, config):
     # Write to a temporary file in the same folder and rename it atomically,
     # so that concurrent runs never observe (or leave behind) a partially written config file.
-    # a config file that is a symbolic link (dotfiles kept elsewhere) stays one: the link target is replaced
+    # a config file that is a symbolic link (dotfiles kept elsewhere) stays one: the link target is replaced -
+    # unless the folder of the target is missing or not writable (dangling link, read-only dotfiles folder): then the
+    # link itself is replaced, as a7d72b2 did, instead of failing the run
+    link_path = config_path
     config_path = os.path.realpath(config_path)
+    if config_path != link_path:
+        target_dir = os.path.dirname(config_path)
+        if not os.path.isdir(target_dir) or not os.access(target_dir, os.W_OK | os.X_OK):
+            config_path = link_path
+    # mkstemp creates the file with mode 0600: an existing config file keeps ITS mode (as with a plain
+    # open(config_path, 'w')), a new one gets the mode a plain open() gives (umask applies)
+    try:
+        mode = stat.S_IMODE(os.stat(config_path).st_mode)
+    except OSError:
+        umask = os.umask(0)
+        os.umask(umask)
+        mode = 0o666 & ~umask
     fd, tmp_path = tempfile.mkstemp(dir=os.path.dirname(config_path),
                                     prefix=os.path.basename(config_path) + ".", suffix=".tmp")
     try:
         with os.fdopen(fd, 'w') as f_out:
             json.dump(config, f_out)
-        # mkstemp creates the file with mode 0600; keep the mode a plain open(config_path, 'w') gave (umask applies)
-        umask = os.umask(0)
-        os.umask(umask)
-        os.chmod(tmp_path, 0o666 & ~umask)
+        os.chmod(tmp_path, mode)
         os.replace(tmp_path, config_path)
     except BaseException:
         if os.path.exists(tmp_path):
